@@ -3,6 +3,7 @@ package nfa
 import (
 	"fmt"
 	"regexp/syntax"
+	"unicode"
 
 	"github.com/coregx/coregex/internal/conv"
 )
@@ -248,8 +249,18 @@ func (c *Compiler) compileLiteral(re *syntax.Regexp) (start, end StateID, err er
 	var first = InvalidState
 
 	for _, r := range runes {
-		// For case-insensitive matching of ASCII letters, create alternation
-		if foldCase && isASCIILetter(r) {
+		// For case-insensitive matching, create an alternation of the rune's
+		// simple-fold orbit. The parser stores one representative of the orbit
+		// (the smallest: (?i)к is stored as К), so a non-ASCII letter compiled
+		// as itself did not even match the spelling used in the pattern; k and s
+		// also fold to U+212A and U+017F.
+		if orbit := simpleFoldOrbit(r); foldCase && len(orbit) > 1 {
+			nextState, err := c.compileFoldOrbit(orbit, prev, &first)
+			if err != nil {
+				return InvalidState, InvalidState, err
+			}
+			prev = nextState
+		} else if foldCase && isASCIILetter(r) {
 			nextState, err := c.compileFoldCaseRune(r, prev, &first)
 			if err != nil {
 				return InvalidState, InvalidState, err
@@ -265,6 +276,41 @@ func (c *Compiler) compileLiteral(re *syntax.Regexp) (start, end StateID, err er
 	}
 
 	return first, prev, nil
+}
+
+// simpleFoldOrbit returns r and every rune that is equivalent to it under
+// simple case folding (unicode.SimpleFold), r first.
+func simpleFoldOrbit(r rune) []rune {
+	orbit := []rune{r}
+	for f := unicode.SimpleFold(r); f != r; f = unicode.SimpleFold(f) {
+		orbit = append(orbit, f)
+	}
+	return orbit
+}
+
+// compileFoldOrbit compiles one case-insensitive rune as the alternation of
+// the UTF-8 encodings of its fold orbit.
+func (c *Compiler) compileFoldOrbit(orbit []rune, prev StateID, first *StateID) (StateID, error) {
+	nextState := c.builder.AddEpsilon(InvalidState)
+	starts := make([]StateID, 0, len(orbit))
+	for _, r := range orbit {
+		start, end, err := c.compileSingleRune(r)
+		if err != nil {
+			return InvalidState, err
+		}
+		if err := c.builder.Patch(end, nextState); err != nil {
+			return InvalidState, err
+		}
+		starts = append(starts, start)
+	}
+	split := c.buildSplitChain(starts)
+
+	if prev == InvalidState {
+		*first = split
+	} else if err := c.builder.Patch(prev, split); err != nil {
+		return InvalidState, err
+	}
+	return nextState, nil
 }
 
 // compileFoldCaseRune compiles a case-insensitive ASCII letter
